@@ -109,7 +109,9 @@ class Simplifier(pysmt.walkers.DagWalker):
         elif len(new_args) == 1:
             return next(iter(new_args))
         else:
-            return self.manager.And(new_args)
+            # A set has no canonical iteration order: equal sets of
+            # conjuncts must give the same node
+            return self.manager.And(sorted(new_args, key=FNode.node_id))
 
     def walk_or(self, formula: FNode, args: List[FNode], **kwargs) -> FNode:
         if len(args) == 2 and args[0] == args[1]:
@@ -136,7 +138,7 @@ class Simplifier(pysmt.walkers.DagWalker):
         elif len(new_args) == 1:
             return next(iter(new_args))
         else:
-            return self.manager.Or(new_args)
+            return self.manager.Or(sorted(new_args, key=FNode.node_id))
 
     def walk_not(self, formula: FNode, args: List[FNode], **kwargs) -> FNode:
         assert len(args) == 1
